@@ -33,6 +33,21 @@ Query(t) == /\ q = 0
 Next == \E t \in MCInstants : Query(t)
 Spec == Init /\ [][Next]_<< code, adjust, q, ans >>
 
+\* ---- two data sources behind one handler: the first non-missing answer wins (codes given as 8-tuples) ----
+Pair1(c) == << c[1], c[2], c[3], c[4] >>
+Pair2(c) == << c[5], c[6], c[7], c[8] >>
+HQuery(t) == /\ q = 0 /\ Len(code) = 8
+             /\ q' = t /\ ans' = HandlerBid(<< FileOf(Pair1(code)), FileOf(Pair2(code)) >>, adjust, t)
+             /\ UNCHANGED << code, adjust >>
+             /\ PrintT(<< "H", code, adjust, t, ans' >>)
+HNext == \E t \in MCInstants : HQuery(t)
+HSpec == Init /\ [][HNext]_<< code, adjust, q, ans >>
+\* the handler's answer is the first source's quote unless that is missing, then the second's
+InvHandler == (q # 0 /\ Len(code) = 8) =>
+                 LET a1 == Quote(FileOf(Pair1(code)), adjust, q)
+                     a2 == Quote(FileOf(Pair2(code)), adjust, q)
+                 IN  SameVal(ans, IF IsNaN(a1) THEN a2 ELSE a1)
+
 InvEquals      == q # 0 => C06_Equals(FileOf(code), adjust, q)
 InvPointInTime == q # 0 => C06_PointInTime(FileOf(code), adjust, q)
 InvNaNBefore   == q # 0 => C06_NaNBefore(FileOf(code), adjust, q)
